@@ -19,7 +19,7 @@ RULE = ("schemas built top-down to depth <= 4 with every combination of schema-l
         "random format, flat and nested) never override a variable but do set unbound fields, explicit assignment "
         "does; wrongly predicted names are detected because the predicted variable is the only one set; non-trivial = "
         ">= 1 bound field with a non-empty variable and >= 1 unbound or unset field; distinct = distinct case content")
-REQUIRED = ("configurations_built_with_keywords_and_bound_validators", "flattened_keys_for_bound_fields_loaded", "sections_built_with_key_and_env_arguments", "upper_case_decoys_for_lower_case_names", "loads_with_undecodable_values_for_bound_fields", "variables_rejected_by_validator_callback:boom",
+REQUIRED = ("assigned_sections_handed_to_a_second_configuration", "configurations_built_with_keywords_and_bound_validators", "flattened_keys_for_bound_fields_loaded", "sections_built_with_key_and_env_arguments", "upper_case_decoys_for_lower_case_names", "loads_with_undecodable_values_for_bound_fields", "variables_rejected_by_validator_callback:boom",
             "second_build_after_environment_change", "family:bytes", "style:auto", "style:getitem", "style:dotted", "list_item_bound_checked", "list_item_document_names_bound_field",
             "setting:ctype-True", "setting:ctype-named", "constructed_ok", "bound_values_checked", "unbound_defaults_checked", "invalid_variable_rejected",
             "loads_do_not_override_checked", "loads_set_unbound_checked", "assignment_overrides_checked",
@@ -92,6 +92,8 @@ def gen_node(rng, depth, counter, used):
                 fields.append({"kind": "ctype", "key": key, "name": "E%d" % counter[0], "schema": sub})
             else:
                 item = sub if rng.random() < 0.4 else {"kind": "ctype", "key": "", "name": "EI%d" % counter[0], "schema": sub}
+                if item is sub and rng.random() < 0.6:
+                    item["late_fill"] = True  # the list is declared first, the fields of its items afterwards
                 # the list itself opts out of the environment (known finding K7 is about bound containers)
                 fields.append({"kind": "field", "key": key, "family": "list", "params": {"env": False}, "item": item})
     return {"kind": "schema", "key": "", "fields": fields}
@@ -132,9 +134,16 @@ def draw_environ(rng, root):
             v = gen.one_value(rng, node, rng.choice(["valid", "valid", "invalid"]), gen.GEN_ENV)
             if isinstance(v, str) and v and "\x00" not in v:
                 environ[name.upper()] = v
+    prefixes = set()
+    for path2, _nd2, name2 in names:
+        flat2 = path2.replace(".", "_").upper()
+        if name2 and "[]" not in path2 and name2.upper().endswith(flat2):
+            prefixes.add(name2[: len(name2) - len(flat2)])
     for path, node, name in names:
         if name is None and rng.random() < 0.6:
-            for decoy in (node["key"].upper(), path.replace(".", "_").upper(), "_" + path.replace(".", "_").upper()):
+            flat = path.replace("[]", "").replace(".", "_").upper()
+            for decoy in [node["key"].upper(), path.replace(".", "_").upper(), "_" + path.replace(".", "_").upper(), flat] + [
+                    pre + flat for pre in sorted(prefixes)]:
                 if decoy not in taken and decoy not in environ and decoy not in ("PATH", "HOME", "LANG", "TZ", "LC_ALL"):
                     v = gen.one_value(rng, node, "valid", gen.GEN_ENV)
                     if isinstance(v, str) and v and "\x00" not in v:
@@ -522,6 +531,23 @@ def _round(case, ctx, res, cc, root, names, built, environ, label):
             res.viol("M-env", "assignment-does-not-override", "%s bound to %s=%r: after assigning %r it reads %r" % (
                 path, name, environ[name], v[0], got))
             return False
+        # the section that holds the assigned value is handed, as an object, to a second configuration of the schema: what was
+        # assigned travels with it (the variable is still set)
+        sec = path.rpartition(".")[0]
+        if sec:
+            try:
+                twin = built.schema()
+                twin[sec] = cfg[sec]
+                moved = plain(twin[path])
+            except Exception:
+                moved = None
+                res.count("section_handover_not_applicable")
+            else:
+                res.count("assigned_sections_handed_to_a_second_configuration")
+                if model.match(v[1], moved):
+                    res.viol("M-env", "assignment-lost-when-the-section-is-handed-over", "%s bound to %s=%r was assigned %r; after "
+                             "twin[%r] = cfg[%r] the twin reads %r" % (path, name, environ[name], v[0], sec, sec, moved))
+                    return False
     unbound = [p for p, _nd, n in names if p not in bound]
     if bound and unbound:
         res.nontrivial(case["schema"], case["environ"], case["tree"])
